@@ -411,6 +411,85 @@ def format_rules(rep, prog):
             rep.violate("C13.T-format", "T-format|writer", wp.where(), "write_ppm emits a format (%s) that parse_pnm does not accept/decode" % sorted(fmts), config=cfg)
 
 
+def writer_rule(rep, prog):
+    """W-bytes: what write_ppm hands to the writer, by interpreting it on views of symbolic pixels (the writer's `write_all` and the header's
+    formatting uninterpreted and recorded): one header - binary pixmap, the view's own dimensions, maxval 255 - followed by exactly the
+    channel bytes r, g, b of every pixel of the VIEW in row-major order (p[y * stride + x]), nothing else; for a strided view, a
+    contiguous one, a single pixel, an empty one and one whose data (513 bytes) is longer than any plausible staging block. The structural
+    half of "write then read gives the image back": the reader's half is P-total / K-buf / T-format."""
+    from . import symalg as S, constfold as CF
+    cfg = prog.config
+    path = "retrofire_core::util::pnm::write_ppm"
+    body = prog.bodies.get(path)
+    if body is None:
+        rep.inst("C13.W-bytes", "write_ppm is not part of this configuration (no std): nothing to decide", config=cfg)
+        return
+    COL, INNER = "retrofire_core::math::color::Color", "retrofire_core::util::buf::inner::Inner"
+    PH = ("adt", "core::marker::PhantomData", "PhantomData", [])
+    OK = ("adt", "core::result::Result", "Ok", [("tuple", [])])
+    bad = []
+    scen = ((3, 2, 4), (2, 2, 2), (1, 1, 1), (0, 0, 0), (19, 9, 19), (3, 2, 5))
+    for w, h, stride in scen:
+        n = (h - 1) * stride + w if h > 0 else 0
+        px = [("adt", COL, "Color", [("array", [S.sym("p%d_%d" % (i, c)) for c in range(3)]), PH]) for i in range(n + (2 if (w, h, stride) == (3, 2, 5) else 0))]   # (3,2,5): surplus backing data
+        cell = A.Frame(None)
+        cell.locals[0] = ("array", px)
+        fields = {"dims": ("tuple", [w, h]), "stride": stride, "data": ("ref", cell, 0, []), "_pd": PH}
+        names = prog.adts[INNER]["variants"][0]["fields"]
+        if any(f not in fields for f in names):
+            raise common.Infra("C13.W-bytes: Inner has fields the rule has no value for (%s)" % names)
+        sl = ("adt", "retrofire_core::util::buf::Slice2", "Slice2", [("adt", INNER, "Inner", [fields[f] for f in names])])
+        out = []
+
+        def m_as(it, args, c, d, sl=sl):
+            return A.copy_val(sl)
+
+        def m_hdr(it, args, c, d, out=out):
+            out.append(("header", A.deref_all(it, args[0])))
+            return OK
+
+        def m_wall(it, args, c, d, out=out):
+            v = A.deref_all(it, args[1])
+            if not (isinstance(v, tuple) and v[0] == "array"):
+                raise A.Undecided("write_all of %r" % (str(v)[:60],))
+            out.extend(A.deref_all(it, x) for x in v[1])
+            return OK
+        models = dict(CF.MODELS)
+        models.update({"AsSlice2::as_slice2": m_as, "pnm::Header::write": m_hdr, "io::Write::write_all": m_wall})
+        it = S.interp(prog, models=models)
+        tag = "%d x %d view, stride %d" % (w, h, stride)
+        try:
+            r = A.deref_all(it, it.call_body(body, [("sym", "OUT"), ("sym", "DATA")], env={}))
+        except A.Panic as e:
+            bad.append("%s: write_ppm panics (%s)" % (tag, str(e)[:80]))
+            continue
+        except (A.Undecided, IndexError, KeyError, TypeError) as e:
+            raise common.Infra("C13.W-bytes: write_ppm could not be interpreted on a %s (%s)" % (tag, str(e)[:200]))
+        if not (isinstance(r, tuple) and r[0] == "adt" and r[2] == "Ok"):
+            bad.append("%s: write_ppm does not return Ok(()) although the writer never fails (%s)" % (tag, str(r)[:60]))
+            continue
+        hdrs = [x for x in out if isinstance(x, tuple) and x and x[0] == "header"]
+        hf = prog.adts["retrofire_core::util::pnm::Header"]["variants"][0]["fields"]
+        ok_h = len(hdrs) == 1 and out and out[0] is hdrs[0]
+        if ok_h:
+            hv = hdrs[0][1]
+            fmt, dims, mx = (A.deref_all(it, hv[3][hf.index(k)]) for k in ("format", "dims", "max"))
+            ok_h = isinstance(fmt, tuple) and fmt[2] == "BinaryPixmap" and [A.deref_all(it, x) for x in dims[1]] == [w, h] and mx == 255
+        if not ok_h:
+            bad.append("%s: the header written is not one binary-pixmap header with the view's dimensions and maxval 255, written first" % tag)
+            continue
+        want = [S.sym("p%d_%d" % (y * stride + x, c)) for y in range(h) for x in range(w) for c in range(3)]
+        got = out[1:]
+        if got != want:
+            k = next((i for i, (a_, b_) in enumerate(zip(got, want)) if a_ != b_), min(len(got), len(want)))
+            bad.append("%s: %d bytes are written instead of the %d channel bytes of the view in row-major order; first difference at byte %d (%s instead of %s)"
+                       % (tag, len(got), len(want), k, str(got[k])[:30] if k < len(got) else "nothing", str(want[k])[:30] if k < len(want) else "nothing"))
+    rep.inst("C13.W-bytes", "write_ppm on %d views of symbolic pixels (strided, contiguous, surplus data, single pixel, empty, 513 bytes): one P6 header with the view's "
+                            "dimensions, then exactly the r, g, b bytes of the view's pixels in row-major order: %s" % (len(scen), not bad), config=cfg)
+    for b_ in bad[:3]:
+        rep.violate("C13.W-bytes", "W-bytes|%s" % b_.split(":")[0].replace(" ", ""), body.where(), b_, config=cfg)
+
+
 def check(rep, args):
     configs = ["ws"] if rep.tier == "quick" else common.ALL_CONFIGS
     rep.configs = configs
@@ -419,13 +498,14 @@ def check(rep, args):
         rep.guard(check_config, rep, prog)
         rep.guard(raw_bytes_rule, rep, prog)
         rep.guard(format_rules, rep, prog)
+        rep.guard(writer_rule, rep, prog)
     cov = {
         "explanation": "exhaustive panic-edge enumeration below parse_pnm/read_pnm with schema-based discharge (integer ranges propagate through "
                        "the iterator chains into the decoding closures), the Buf2::new_from contract, and format-table agreement between "
                        "header parser, decoder and writer",
         "evaluations": len(rep.instances),
         "distinct_nontrivial": len({i["what"] for i in rep.instances}),
-        "rules": ["P-total", "K-buf", "B-raw", "T-format"],
+        "rules": ["P-total", "K-buf", "B-raw", "T-format", "W-bytes"],
     }
     return "other", cov, [
         "allocation failure is out of scope (a huge but representable header allocates lazily via take(count))",
